@@ -8,6 +8,7 @@ OPS = {"c03": {"set_must", "set_opt_existing"}, "c04": {"delete"}}["c03"]
 def run(ctx):
     ops = {"set_must"} if "c03" == "c03" else {"delete"}
     editobs.run_histories(ctx, ops, "C03", ["MC_Edit_q.cfg"] if ctx.quick else ["MC_Edit_t.cfg"])
+    editobs.random_histories(ctx, "C03", 600 if ctx.quick else 6000, 8)
 
 
 def replay(path):
